@@ -36,11 +36,18 @@ static void snapshot(const node *n, int depth, std::vector<Snap> &out, size_t &g
 		snapshot(n->children, depth + 1, out, guard);
 	}
 }
-struct Nest { int depth = 0; bool bad = false; uint64_t events = 0, sections = 0, options = 0; };
-static int nest_save(void *ctx, const path *, const value *, int last, int curr) {
+struct Nest { int depth = 0; bool bad = false; uint64_t events = 0, sections = 0, options = 0; std::vector<Snap> tree; };
+static int nest_save(void *ctx, const path *pt, const value *val, int last, int curr) {
 	Harness h;
 	Nest *n = (Nest *) ctx; ++n->events;
 	int k = curr & 3;
+	// the tree these events describe: a named entry per section start and option at the depth of the open sections, an unnamed one per data-only element
+	if ((curr & 1) || (curr & 7) == 4) {
+		Snap sn; sn.depth = n->depth;
+		if (curr & 1) { path cp = *pt; int l = mpt_path_last(&cp); if (l > 0) sn.name.assign(cp.base + cp.off, (size_t) l); }
+		if (val && (curr & 4)) { const struct iovec *v = (const struct iovec *) val->data(); if (v && v->iov_base) sn.value.assign((const char *) v->iov_base, v->iov_len); }
+		n->tree.push_back(sn);
+	}
 	if (k == 1) { ++n->depth; ++n->sections; }
 	else if (k == 2) { if (n->depth <= 0) n->bad = true; else --n->depth; }
 	else if (k == 3) ++n->options;
@@ -207,6 +214,15 @@ struct ParserWorld : World {
 				log.ev("EVENTS -> %d events=%llu sections=%llu options=%llu depth=%d", rc, (unsigned long long) nest.events, (unsigned long long) nest.sections, (unsigned long long) nest.options, nest.depth);
 				if (rd.over) fail("reader-loop", "event parse called the reader %llu times for %zu characters", (unsigned long long) rd.calls, text.size());
 				if (rc >= 0 && nest.bad) fail("bad-nesting", "successful parse emitted a section end without an open section");
+				// the tree the library builds from these events (into an empty target) has every entry where the events put it
+				if (rc >= 0 && base_rc >= 0 && pre.empty() && !nest.bad) {
+					bool same = nest.tree.size() == base_tree.size();
+					size_t d = 0; for (; same && d < base_tree.size(); ++d) if (nest.tree[d].depth != base_tree[d].depth || nest.tree[d].name != base_tree[d].name) { same = false; break; }
+					if (!same) { if (nest.tree.size() != base_tree.size()) { d = 0; while (d < nest.tree.size() && d < base_tree.size() && nest.tree[d].depth == base_tree[d].depth && nest.tree[d].name == base_tree[d].name) ++d; }
+						fail("tree-nesting", "the parsed tree has %zu entries, the events describe %zu; first difference at entry %zu (tree: depth %d '%.12s', events: depth %d '%.12s')", base_tree.size(), nest.tree.size(), d,
+						     d < base_tree.size() ? base_tree[d].depth : -1, d < base_tree.size() ? base_tree[d].name.c_str() : "", d < nest.tree.size() ? nest.tree[d].depth : -1, d < nest.tree.size() ? nest.tree[d].name.c_str() : ""); }
+					st.hit("probe:tree_matches_events");
+				}
 				if (ledger_live()) fail("leak", "event parse (%d) left %zu block(s) allocated: %s", rc, ledger_live(), ledger_describe().c_str());
 				st.state(301, rc < 0 ? 0 : 1, (uint64_t) std::min<uint64_t>(nest.sections, 3) * 4 + std::min<uint64_t>(nest.options, 3));
 			}
